@@ -14,6 +14,7 @@ import (
 	"sort"
 	"strings"
 	"sync"
+	"syscall"
 	"time"
 )
 
@@ -144,6 +145,12 @@ type Env struct {
 	Seed     int64
 	start    time.Time
 	cur      *os.File
+	// two-phase distribution: phase 1 (FrontierOut) expands each scenario's choice tree breadth-first
+	// until enough subtree roots exist and writes them out; phase 2 workers (FrontierIn) take every
+	// N-th root and explore below it.
+	FrontierOut string
+	FrontierIn  string
+	frontier    map[string][][]Point
 }
 
 // mark records (in a side file that survives a process crash) which execution is
@@ -185,6 +192,12 @@ func LoadEnv(property string) *Env {
 	e.Out = os.Getenv("VERIF_OUT")
 	e.Replay = os.Getenv("VERIF_REPLAY")
 	e.Seed = int64(atoi(os.Getenv("VERIF_SEED"), 0))
+	e.FrontierOut, e.FrontierIn = os.Getenv("VERIF_FRONTIER_OUT"), os.Getenv("VERIF_FRONTIER_IN")
+	if e.FrontierIn != "" {
+		if data, err := os.ReadFile(e.FrontierIn); err == nil {
+			json.Unmarshal(data, &e.frontier)
+		}
+	}
 	budget := atoi(os.Getenv("VERIF_TIME_S"), 0)
 	if budget > 0 {
 		e.Deadline = e.start.Add(time.Duration(budget) * time.Second)
@@ -251,6 +264,10 @@ func (e *Env) RunScenarios(res *Result, scs []*Scenario) {
 // Finish writes the shard result for the driver.
 func (e *Env) Finish(res *Result) *Result {
 	res.WallS = time.Since(e.start).Seconds()
+	if e.FrontierOut != "" {
+		data, _ := json.Marshal(e.frontier)
+		os.WriteFile(e.FrontierOut, data, 0o644)
+	}
 	if e.Out != "" {
 		data, _ := json.Marshal(res)
 		if err := os.WriteFile(e.Out, data, 0o644); err != nil {
@@ -298,11 +315,15 @@ func (e *Env) explore(sc *Scenario, res *Result) {
 	st := &ScenarioStats{Name: sc.Name, Budget: sc.Budget, Outcomes: map[string]int{}, Deviations: map[string]int{},
 		AbstractState: map[string]int{}, Complete: true, nontrivialSet: map[string]bool{}}
 	res.Scenarios = append(res.Scenarios, st)
-	const shardDepth = 2
+	shardDepth := 1
+	if e.FrontierOut != "" || e.FrontierIn != "" {
+		shardDepth = 1 << 30 // no in-process sharding: the frontier is the unit of distribution
+	}
 	var distCounter int
 	stop := false
 	unknownSigs := map[string]bool{}
 	knownSeen := map[string]bool{}
+	var queue [][]Point
 
 	var rec func(prefix []Point, depth int, mine bool)
 	rec = func(prefix []Point, depth int, mine bool) {
@@ -327,7 +348,7 @@ func (e *Env) explore(sc *Scenario, res *Result) {
 			return
 		}
 		// shared levels are executed by every shard but accounted for by shard 0 only
-		count := mine && (depth >= shardDepth || e.Shard == 0)
+		count := mine && (depth >= shardDepth || e.Shard == 0 || e.FrontierIn != "")
 		if depth == 0 {
 			// determinism guard on the root execution
 			for k := 0; k < 2; k++ {
@@ -423,6 +444,10 @@ func (e *Env) explore(sc *Scenario, res *Result) {
 				if depth+1 >= shardDepth && !childMine {
 					continue
 				}
+				if e.FrontierOut != "" {
+					queue = append(queue, np)
+					continue
+				}
 				rec(np, depth+1, childMine)
 				if stop {
 					return
@@ -430,8 +455,80 @@ func (e *Env) explore(sc *Scenario, res *Result) {
 			}
 		}
 	}
-	rec(nil, 0, true)
+	switch {
+	case e.FrontierOut != "":
+		// phase 1: breadth-first until there are enough subtree roots to balance the workers
+		target := 48 * max(e.NShards, 1)
+		queue = append(queue, nil)
+		first := true
+		expansions := 0
+		minExp := atoi(os.Getenv("VERIF_FRONTIER_MINEXP"), 64)
+		for len(queue) > 0 && (first || len(queue) < target || expansions < minExp) && !stop {
+			expansions++
+			// expand the node with the earliest last decision first: it roots the largest subtree
+			best := 0
+			for i := range queue {
+				if len(queue[i]) < len(queue[best]) {
+					best = i
+				}
+			}
+			p := queue[best]
+			queue = append(queue[:best:best], queue[best+1:]...)
+			d := 1
+			if first {
+				d = 0 // determinism guard on the root
+			}
+			first = false
+			rec(p, d, true)
+		}
+		if e.frontier == nil {
+			e.frontier = map[string][][]Point{}
+		}
+		sort.SliceStable(queue, func(a, b int) bool { return len(queue[a]) < len(queue[b]) })
+		e.frontier[sc.Name] = queue
+	case e.FrontierIn != "":
+		// workers pull subtree roots from a shared counter (dynamic balancing); roots are ordered
+		// big-first (an earlier last decision point means a larger subtree)
+		roots := e.frontier[sc.Name]
+		for {
+			i := nextIndex(e.FrontierIn + "." + sanitize(sc.Name) + ".ctr")
+			if i >= len(roots) || stop {
+				break
+			}
+			rec(roots[i], 1, true)
+		}
+	default:
+		rec(nil, 0, true)
+	}
 	st.NonTrivial = len(st.nontrivialSet)
+}
+
+func sanitize(s string) string {
+	return strings.Map(func(r rune) rune {
+		if r >= 'a' && r <= 'z' || r >= 'A' && r <= 'Z' || r >= '0' && r <= '9' {
+			return r
+		}
+		return '_'
+	}, s)
+}
+
+// nextIndex atomically returns and increments a counter shared between worker processes.
+func nextIndex(path string) int {
+	f, err := os.OpenFile(path, os.O_RDWR|os.O_CREATE, 0o644)
+	if err != nil {
+		panic(err)
+	}
+	defer f.Close()
+	if err := syscall.Flock(int(f.Fd()), syscall.LOCK_EX); err != nil {
+		panic(err)
+	}
+	defer syscall.Flock(int(f.Fd()), syscall.LOCK_UN)
+	var n int
+	buf := make([]byte, 32)
+	k, _ := f.ReadAt(buf, 0)
+	fmt.Sscanf(string(buf[:k]), "%d", &n)
+	f.WriteAt([]byte(fmt.Sprintf("%-20d", n+1)), 0)
+	return n
 }
 
 func compact(tr []Point) string {
